@@ -41,7 +41,7 @@ $(BUILD)/fw/vsim-child: $(ROOT)vsim/child.c
 $(B)/asan/lib/Process.o: EXTRA_SAN := -fno-sanitize=bool
 $(B)/asan/lib/%.o: $(REPO)/src/%.cc
 	@mkdir -p $(dir $@)
-	$(CXX) $(STD) $(OPT) $(ASAN) $(EXTRA_SAN) -w -I$(REPO)/src -c $< -o $@
+	$(CXX) $(STD) $(OPT) $(ASAN) $(EXTRA_SAN) -w -include $(ROOT)vsim/clock_shim.hh -I$(REPO)/src -c $< -o $@
 
 $(B)/asan/librepo.a: $(LIBOBJS_ASAN)
 	@rm -f $@
@@ -74,7 +74,7 @@ $(BUILD)/fw/vpar.o: $(ROOT)vsim/vpar.cc $(ROOT)vsim/vpar.hh $(ROOT)vsim/vsim.hh
 
 $(B)/tsan/lib/%.o: $(REPO)/src/%.cc
 	@mkdir -p $(dir $@)
-	$(CXX) $(STD) $(OPT) $(TSAN) -w -I$(REPO)/src -c $< -o $@
+	$(CXX) $(STD) $(OPT) $(TSAN) -w -include $(ROOT)vsim/clock_shim.hh -I$(REPO)/src -c $< -o $@
 
 $(B)/tsan/librepo.a: $(LIBOBJS_TSAN)
 	@rm -f $@
@@ -102,7 +102,7 @@ COV := -fprofile-instr-generate -fcoverage-mapping
 LIBOBJS_COV := $(patsubst src/%.cc,$(B)/cov/lib/%.o,$(LIBSRCS))
 $(B)/cov/lib/%.o: $(REPO)/src/%.cc
 	@mkdir -p $(dir $@)
-	$(CXX) $(STD) -O0 -g $(COV) -w -I$(REPO)/src -c $< -o $@
+	$(CXX) $(STD) -O0 -g $(COV) -w -include $(ROOT)vsim/clock_shim.hh -I$(REPO)/src -c $< -o $@
 $(B)/cov/librepo.a: $(LIBOBJS_COV)
 	@rm -f $@
 	ar rcs $@ $^
